@@ -853,7 +853,9 @@ func (ls *LanceroSource) distributeData(buffersMsg BuffersChanType) *dataBlock {
 	nrows := ls.devices[0].nrows
 	for frame := 0; frame < framesUsed; frame++ { // frame within this block, need to add ls.nextFrameNum for consistent timing across blocks
 		for row := 0; row < nrows; row++ { // search the first column for frame bit level triggers
-			channelIndex := row*2 + 1
+			// datacopies is still in readout order (r0c0, r0c1, ..., r1c0, ...): look up where the feedback
+			// of this row in the first column is, through the channel-order table
+			channelIndex := ls.chan2readoutOrder[row*2+1]
 			v := datacopies[channelIndex][frame]
 			externalTriggerState := (v & 0x02) == 0x02 // external trigger bit is 2nd least significant bit in feedback (odd channelIndex)
 			if externalTriggerState && !ls.externalTriggerLastState {
